@@ -250,6 +250,13 @@ def gen_hist(ch, opts, real_limit=False):
                         continue
                 except Exception:
                     pass
+            if cases and ch.bool(1, 5):
+                # a near twin: the same unexpanded list except for one element inside a replication body (a compiled-cache
+                # key that must look into the replications)
+                twin = gmsg.near_twin(ch, ch.choice(cases))
+                if twin is not None:
+                    cases.append(twin)
+                    continue
             if ch.bool(1, 6) and len(cases) + 2 <= n:
                 # twins: one WMO sequence on one master version, once with and once without a local table that
                 # re-defines something the sequence reaches (two table groups that share their WMO part)
@@ -322,6 +329,18 @@ def gen_hist(ch, opts, real_limit=False):
     # twins are decoded one after the other by one coder at least once (whatever else the history does)
     twin_idx = [k for k, c in enumerate(cases) if 'same_element_other_scale_or_reference' in c.features
                 or 'same_sequence_with_and_without_local_table' in c.features]
+    near = [k for k, c in enumerate(cases) if 'near_twin_template' in c.features]
+    if near and not real_limit:
+        # a near twin and the message it was derived from, back to back on one coder (any earlier message with the same
+        # top-level descriptors will do)
+        k = ch.choice(near)
+        same_top = [x for x in range(len(cases)) if x != k and len(cases[x].ids) == len(cases[k].ids)
+                    and cases[x].ids[0] == cases[k].ids[0] and cases[x].meta == cases[k].meta]
+        if same_top:
+            j = ch.int(0, n_coders - 1)
+            pos = ch.int(0, len(ops))
+            pair = [same_top[0], k] if ch.bool() else [k, same_top[0]]
+            ops[pos:pos] = [('decode', j, x) for x in pair] + [('encode', j, x) for x in pair]
     if twin_idx and not real_limit:
         j = ch.int(0, n_coders - 1)
         pos = ch.int(0, len(ops))
@@ -386,6 +405,8 @@ def check_hist(hc):
         cls.add('twins_same_width_other_scale_or_reference')
     if any('same_sequence_with_and_without_local_table' in c.features for c in hc.cases):
         cls.add('twins_with_and_without_local_table')
+    if any('near_twin_template' in c.features for c in hc.cases):
+        cls.add('templates_that_differ_only_inside_a_replication')
     out.classes = sorted(cls) + ['table_limit_%s' % (hc.table_limit or 'real')] + sorted(set('coder_cache_%s' % c for c in hc.coder_caches))
     out.nontrivial = bool(cls & {'revisit_after_table_eviction', 'revisit_after_compiled_eviction', 'revisit_after_failure'})
     pool = hc.pool()
